@@ -52,7 +52,8 @@ def run(ctx):
   T['_DEGREE_MODIFICATIONS'] = mods
   from sa import pitfalls
   regex_groups_into_tables(ctx)
-  pitfalls.apply(ctx, 'PITFALL', [fi for q, fi in sorted(mi.all_functions.items()) if '.' not in q], ['falsy-zero', 'misaligned-index'], {
+  pitfalls.apply(ctx, 'PITFALL', [fi for q, fi in sorted(mi.all_functions.items()) if '.' not in q], ['falsy-zero', 'misaligned-index', 'previous-wraps'], {
+      'previous-wraps': 'the amount left over for the accidental is then reduced by a whole octave\'s worth of steps: the root / bass is spelled on the wrong letter (Db comes out as C)',
       'misaligned-index': 'the root written into the chord symbol is then not the root the chosen kind was found for: the named chord does not contain the supplied pitches',
       'falsy-zero': 'pitch class 0 (C, B#, Dbb) is a root / bass like any other: a written bass of pitch class 0 is dropped, so the name no longer carries the lowest supplied pitch as bass'})
   for q in ('chord_symbol_root', 'chord_symbol_bass'):
